@@ -885,6 +885,9 @@ func (e *Exec) rangeOp(x Value) Value {
 			}
 		}
 		n := len(live)
+		if n >= 2 && !e.mapOrderSite() {
+			e.env.mapRangeSeen = true
+		}
 		if n >= 2 && e.mapOrderSite() {
 			var orders [][]int
 			if n <= e.cfg.MapPermMax {
